@@ -265,4 +265,82 @@ pub(crate) mod kani_verif {
         assert!(e.hmac[..] == R::out(2)[..16], "MAC slice holds the outer hash");
         kani::cover!(r == 5, "level-2 node reachable");
     }
+
+    // ---- quick-tier stand-in for the harnesses above: concrete level words and buffer lengths, symbolic contents.
+    // (With a symbolic level word the iterator chains of hss_expand_aux_data exhaust 18 GB; see DESIGN A.1.)
+    fn check_expand_concrete(word: u32, len: usize) {
+        MAC_CALLS.store(0, Ordering::Relaxed);
+        let mut buf: [u8; 120] = kani::any();
+        buf[..4].copy_from_slice(&word.to_be_bytes());
+        let seed: [u8; N] = kani::any();
+        let copy = buf;
+        let mut total: usize = 4;
+        let mut lv = 0;
+        while lv <= 25 {
+            if (word >> lv) & 1 == 1 {
+                total += N << lv;
+            }
+            lv += 1;
+        }
+        let r = hss_expand_aux_data::<H>(Some(&mut buf[..len]), Some(&seed));
+        if total > len {
+            assert!(r.is_none(), "shorter than its own layout: ignored");
+        }
+        if len != total + N {
+            assert!(r.is_none(), "a buffer whose MAC field is cut short or padded is never accepted");
+        }
+        match r {
+            None => {}
+            Some(e) => {
+                assert!(MAC_CALLS.load(Ordering::Relaxed) == 1 && MAC_KEY_OK.load(Ordering::Relaxed) == 1, "MAC computed once with the seed-derived key");
+                assert!(MAC_DATA_LEN.load(Ordering::Relaxed) == total, "MAC covers exactly header and cached levels");
+                let mut i = 0;
+                while i < N {
+                    assert!(copy[total + i] == MAC_OUT[i].load(Ordering::Relaxed), "stored MAC equals the computed MAC");
+                    i += 1;
+                }
+                assert!(e.level == word && e.hmac.len() == N, "level word and MAC slice");
+                let mut off = 4usize;
+                lv = 0;
+                while lv <= 25 && lv <= crate::constants::MAX_TREE_HEIGHT {
+                    if (word >> lv) & 1 == 1 {
+                        let d = e.data[lv].as_ref().unwrap();
+                        assert!(d.len() == N << lv && d[0] == copy[off] && d[d.len() - 1] == copy[off + d.len() - 1], "level slice at its hash-sigs offset");
+                        off += N << lv;
+                    } else {
+                        assert!(e.data[lv].is_none(), "levels whose bit is clear are absent");
+                    }
+                    lv += 1;
+                }
+            }
+        }
+        kani::cover!(len != total + N || MAC_CALLS.load(Ordering::Relaxed) == 1, "a complete layout reaches the MAC comparison");
+    }
+    macro_rules! expand_concrete_harness {
+        ($name:ident, $word:expr, $total:expr) => {
+            #[kani::proof]
+            #[kani::stub(zeroize::optimization_barrier, no_barrier)]
+            #[kani::stub(<[u8; 32] as tinyvec::Array>::default, fast_default)]
+            #[kani::stub(compute_seed_derive, stub_seed_derive)]
+            #[kani::stub(compute_hmac, stub_hmac)]
+            #[kani::unwind(40)]
+            fn $name() {
+                let which: u8 = kani::any();
+                // one call per path (the expander is the expensive part): the solver picks the case
+                let len = match which % 4 {
+                    0 => $total + N,      // complete
+                    1 => $total + N - 1,  // MAC cut short by one byte
+                    2 => $total,          // MAC missing
+                    _ => $total + N + 1,  // padded
+                };
+                check_expand_concrete($word, len);
+            }
+        };
+    }
+    // @h name=c10_expand_word_nolevel props=C10,C11 tier=extended kind=bounded cfg=w8 timeout=1200 funcs=hss_expand_aux_data note="level word 0x80000000 (no cached level), lengths 4, 19, 20, 21; symbolic contents and seed" contract="Some only for the complete layout whose MAC field equals compute_hmac(seed-derived key, header); cut, missing or padded MAC: None; no panic"
+    expand_concrete_harness!(c10_expand_word_nolevel, 0x8000_0000u32, 4usize);
+    // @h name=c10_expand_word_l1 props=C10,C11 tier=thorough kind=bounded cfg=w8 timeout=2400 funcs=hss_expand_aux_data note="level word 0x80000002 (level 1: 32 bytes), lengths 36, 51, 52, 53" contract="same, one cached level: slice at offset 4, MAC over header || level 1"
+    expand_concrete_harness!(c10_expand_word_l1, 0x8000_0002u32, 36usize);
+    // @h name=c10_expand_word_l12 props=C10,C11 tier=extended kind=bounded cfg=w8 timeout=1200 funcs=hss_expand_aux_data note="level word 0x80000006 (levels 1 and 2), lengths 100, 115, 116, 117" contract="same, two cached levels in ascending order"
+    expand_concrete_harness!(c10_expand_word_l12, 0x8000_0006u32, 100usize);
 }
